@@ -44,6 +44,18 @@ func nodeTasksAlive() []string {
 	return out
 }
 
+// sleepNet sleeps until d of simulated time has passed net of injected stalls.
+func sleepNet(d time.Duration) {
+	st0, t0 := dsim.StallTime(), dsim.Now()
+	for i := 0; i < 64; i++ {
+		net := (dsim.Now() - t0) - (dsim.StallTime() - st0)
+		if net >= d {
+			return
+		}
+		dsim.Sleep(d - net)
+	}
+}
+
 // checkReleased evaluates the "everything released" oracles after Close has returned.
 func (e *env) checkReleased(oracle string) bool {
 	if live := nodeTasksAlive(); len(live) > 0 {
@@ -410,7 +422,16 @@ func c12Body() func(h []dsim.Rec) {
 		bound = rto
 	}
 	bound += time.Second
-	dsim.Sleep(bound)
+	// the bound is counted net of injected stalls (time during which the node's runnable goroutines
+	// were held back by the simulator is not the node's time)
+	st0 := dsim.StallTime()
+	for i := 0; i < 64; i++ {
+		net := (e.now() - t0) - (dsim.StallTime() - st0)
+		if net >= bound {
+			break
+		}
+		dsim.Sleep(bound - net)
+	}
 	dsim.Settle("after-close-bound")
 	e.mu.Lock()
 	ret := returned
@@ -438,7 +459,7 @@ func c12Body() func(h []dsim.Rec) {
 		e.mu.Unlock()
 		if !ended {
 			// the consumer may have stopped by itself exactly now; otherwise its range must have ended
-			dsim.Sleep(2 * time.Second)
+			sleepNet(2 * time.Second)
 			dsim.Settle("consumer-end")
 			e.mu.Lock()
 			ended = cons.ended || cons.stopped
@@ -466,7 +487,7 @@ func c12Body() func(h []dsim.Rec) {
 	e.mu.Lock()
 	stopWriters = true
 	e.mu.Unlock()
-	dsim.Sleep(3 * time.Second)
+	sleepNet(3 * time.Second)
 	dsim.Settle("after-close")
 	e.mu.Lock()
 	ok := drained
